@@ -158,6 +158,9 @@ def sys_total() -> int:
 TEXT_NOISE = ["", "# comment", "   ", "interface = can0",
               "(1700000000.000100) can0 6FE#11223", "(1700000000.000100) can0 6FE##1112",
               "  can0  6FE   [3]  11 22 3", "(1700000000.000100) can0 6FE#1", "  can0  6FE   [8]  1",
+              # remote frames, zero-length frames with the ASCII column, error frames
+              "  can0  6FE   [0]  remote request", "  can0  6FE   [0]  ''", "  can0  6FE   [2]  remote request",
+              "  can0  20000004   [8]  00 00 04 00 00 00 00 00   ERRORFRAME", "(1700000000.000100) can0 6FE#R",
               "(1700000000.0001"]
 
 ENTRY_POOL = [
